@@ -36,8 +36,9 @@ META = dict(
                "run from the packages' search paths, nothing imported: taskiq's own packages, a planted package, the stdlib / "
                "third-party packages a driver process has loaded) must import nothing and stay unresolved; a package that answers "
                "missing attributes itself (PEP 562 __getattr__) is used for this only when it is taskiq's own - what taskiq's "
-               "own modules do on attribute lookup is taskiq's behaviour, what pydantic's / anyio's hooks import is recorded as an "
-               "observation (`foreign_lazy_package`), not judged. "
+               "own modules do on attribute lookup is taskiq's behaviour; what third-party hooks (pydantic, anyio) import when a stored "
+               "name walks into them is a violation of 'never imports a module that is not already loaded' on the unchanged "
+               "tree and is reported as KNOWN-FINDING `foreign_lazy_package` (D13), judged by its own replay on every run. "
                "Trusted: Coq kernel + vm_compute; the trap objects, the "
                "Exception.__subclasses__() / sys.modules snapshots and the canonicaliser of the driver.",
     rule="case = (environment variant, entry point, payload tree with realisation choices); generated per seed; non-trivial iff "
@@ -1070,16 +1071,34 @@ def run(ctx):
                                                "template class of taskiq.exceptions) x 3 entry points on environment 0" % len(grid))
     sp = C.run_driver(ctx, "loadgate_driver", SPECIALS, nproc=1)
     rep.extra["observations_outside_scope"] = sp
-    if (broken or any(not o["ok"] for o in rep.obligations)) and not rep.failures:
+    for o in sp:
+        # known finding D13 (signature foreign_lazy_package): the statement says "never imports a module that is not already
+        # loaded"; a stored name that walks through a loaded third-party package with its own module-level __getattr__
+        # makes that package import a sub-module.  Reported through the known-findings file, not silently scoped out.
+        if isinstance(o, dict) and o.get("special") == "foreign_lazy_package" and o.get("observed"):
+            rep.fail("load imported a module that was not loaded (through a third-party package's own attribute hook)",
+                     dict(special="foreign_lazy_package"), observed=o["observed"],
+                     expected="sys.modules does not grow", sig=dict(clause="foreign_lazy_package"))
+    if (broken or any(not o["ok"] for o in rep.obligations)) and not [f for f in rep.failures if not is_foreign_lazy(f)]:
         r2 = ctx.sub_rng("search")
         envs2 = make_envs(ctx, 12, view, lazy)
         explore(ctx, rep, [gen_case(r2, envs2) for _ in range(ctx.n(12000, 60000))], "search")
-    return rep.finish()
+    return rep.finish({"foreign_lazy_package": is_foreign_lazy})
+
+
+def is_foreign_lazy(f):
+    return f.get("sig", {}).get("clause") == "foreign_lazy_package"
 
 
 def replay(ctx, path):
     rec = json.load(open(path))
-    c = rec["case"]
+    c = rec["case"] if "case" in rec else rec
+    if c.get("special"):
+        o = C.run_driver(ctx, "loadgate_driver", [dict(special=c["special"])], nproc=1)[0]
+        print("implementation:", json.dumps(o, indent=1)[:3000])
+        bad = bool(o.get("observed")) or "_crash" in o
+        print("VIOLATED (known finding %s)" % c["special"] if bad else "holds")
+        return 1 if bad else 0
     o = C.run_driver(ctx, "loadgate_driver", [c], nproc=1)[0]
     print("entry:", c["entry"])
     print("payload:", json.dumps(c["raw"])[:1500])
